@@ -2,7 +2,7 @@
 From Coq Require Import List ZArith Bool Lia ZifyBool.
 Import ListNotations.
 Require Import Naga.Layout.Spec Naga.Layout.Constraints Naga.Layout.Naga Naga.Layout.Arith
-  Naga.Layout.SpecProofs Naga.Layout.NagaProofs Naga.Layout.Msl.
+  Naga.Layout.SpecProofs Naga.Layout.NagaProofs Naga.Layout.HlslProofs Naga.Layout.Msl.
 Open Scope Z_scope.
 
 (* struct S { @size(14) v: vec3<f32>, h: f16 }: v is followed by a gap of 2 bytes; the emitter
@@ -136,7 +136,7 @@ Proof.
           as [P1 [P2 P3]].
         split; [rewrite P1, I1; reflexivity|]. split; [rewrite P2; exact I2|].
         split.
-        { rewrite P3. cbn [map]. rewrite I3. f_equal. unfold d in Ed. rewrite Ed. reflexivity. }
+        { rewrite P3. cbn [map]. rewrite I3. f_equal. rewrite Ed. reflexivity. }
         { unfold finfos. rewrite map_app. apply Forall_app. split.
           - destruct (last <? o); cbn [map]; constructor; auto. cbn [snd]. rewrite cxx_pad. cbn [fst].
             split; [lia|apply Z.divide_1_l].
@@ -174,4 +174,255 @@ Proof.
         - destruct (last <? o); cbn [map]; constructor; auto. cbn [snd]. rewrite cxx_pad. cbn [fst].
           split; [lia|apply Z.divide_1_l].
         - cbn [map snd]. constructor; auto. }
+Qed.
+
+(* ---- per-type invariant ---- *)
+
+Definition Kfacts (t : ty) : Prop :=
+  let d := msl_def t in
+  0 < fst (cxx_als d) /\ (fst (cxx_als d) | align_of t) /\
+  msl_type_size t = size_of t /\ 0 <= size_of t /\
+  snd (cxx_als d) = stride_of t /\
+  (is_vec3 t = None -> is_vec3_24 t = None /\ snd (cxx_als d) = size_of t) /\
+  (forall w, is_vec3 t = Some w ->
+     is_vec3_24 t = Some w /\ 0 < w /\ (w | align_of t) /\ size_of t = 3 * w /\ d = CVec 3 w).
+
+Definition Mfacts (m : member) : Prop :=
+  pow2 (fst (member_info m)) /\ size_of (mty m) <= snd (member_info m) /\
+  (align_of (mty m) | fst (member_info m)) /\ Kfacts (mty m).
+
+Lemma MF_spec : forall ms cur last span,
+  Forall Mfacts ms ->
+  vec3_room ms (offsets_from cur (infos_of ms)) span = true ->
+  end_from cur (infos_of ms) <= span ->
+  0 <= last -> last <= next_off (offsets_from cur (infos_of ms)) span ->
+  MF last ms (offsets_from cur (infos_of ms)) span.
+Proof.
+  induction ms as [|m r IH]; intros cur last span HF Hroom Hend Hl0 Hl.
+  - cbn [infos_of map offsets_from MF next_off end_from] in *. lia.
+  - inversion HF as [|x y [Pm [Sm [Am [K1 [K2 [K3 [K4 [K5 [K6 K7]]]]]]]]] HFr]; subst x y.
+    cbn [infos_of map] in *. fold (infos_of r) in *.
+    destruct (member_info m) as [A S] eqn:Emi. cbn [fst snd] in *.
+    cbn [offsets_from end_from next_off] in *.
+    set (o := round_up A cur) in *.
+    pose proof (pow2_pos _ Pm) as Apos.
+    cbn [vec3_room] in Hroom. apply andb_true_iff in Hroom. destruct Hroom as [Hr1 Hr2].
+    fold (next_off (offsets_from (o + S) (infos_of r)) span) in Hr1.
+    set (next := next_off (offsets_from (o + S) (infos_of r)) span) in *.
+    assert (Hnext : o + S <= next).
+    { unfold next. destruct r as [|m2 r2]; cbn [infos_of map offsets_from next_off].
+      - cbn [infos_of map end_from] in Hend. exact Hend.
+      - inversion HFr as [|x y [Pm2 _] _]; subst x y. destruct (member_info m2) as [A2 S2]. cbn [fst] in Pm2.
+        apply round_up_ge. apply pow2_pos; auto. }
+    assert (Hdivo : (A | o)) by (apply round_up_divide; auto).
+    cbn [MF]. fold next.
+    split; [lia|]. split; [rewrite K3; exact K4|]. split; [exact K1|].
+    split; [eapply Z.divide_trans; [exact K2|]; eapply Z.divide_trans; [exact Am|exact Hdivo]|].
+    rewrite K3.
+    destruct (is_vec3 (mty m)) as [w|] eqn:Ev.
+    + destruct (K7 w eq_refl) as [V1 [V2 [V3 [V4 V5]]]].
+      split; [exact V1|]. split; [exact V2|].
+      split; [eapply Z.divide_trans; [exact V3|]; eapply Z.divide_trans; [exact Am|exact Hdivo]|].
+      split; [exact V4|]. split; [exact V5|].
+      destruct (next =? o + 3 * w) eqn:En.
+      * left. split; [lia|]. apply IH; auto; try lia.
+      * right. split; [lia|]. split; [lia|]. apply IH; auto; lia.
+    + destruct (K6 eq_refl) as [N1 N2]. split; [exact N1|]. split; [exact N2|].
+      apply IH; auto; lia.
+Qed.
+
+Lemma struct_align_in : forall l, struct_align l = 1 \/ exists i, In i l /\ fst i = struct_align l.
+Proof.
+  induction l as [|i r IH]; cbn [struct_align fold_right]; auto.
+  fold (struct_align r). destruct (Z.max_spec (fst i) (struct_align r)) as [[_ E]|[_ E]]; rewrite E.
+  - destruct IH as [IH|[j [Hj Ej]]]; auto. right. exists j. split; auto. right; auto.
+  - right. exists i. split; auto. left; auto.
+Qed.
+
+Lemma cxx_als_struct : forall fs,
+  cxx_als (CStruct fs) = (struct_align (finfos fs), round_up (struct_align (finfos fs)) (end_from 0 (finfos fs))).
+Proof.
+  intros. cbn [cxx_als]. unfold finfos.
+  assert (E : map (fun f : bool * ctype => let (_, c') := f in cxx_als c') fs = map (fun f => cxx_als (snd f)) fs).
+  { apply map_ext. intros [b c]. reflexivity. }
+  rewrite E. reflexivity.
+Qed.
+
+Lemma msl_def_struct : forall ms,
+  msl_def (TStruct ms) = CStruct (msl_fields 0 ms (noffsets (ninfos ms)) (nspan (ninfos ms)) (defs_of ms)).
+Proof.
+  intros. cbn [msl_def]. unfold defs_of. f_equal. f_equal. apply map_ext. intros [a s t]. reflexivity.
+Qed.
+
+Lemma stride_of_aligned : forall t, 0 < align_of t -> (align_of t | size_of t) -> stride_of t = size_of t.
+Proof. intros. unfold stride_of. apply round_up_id; auto. Qed.
+
+Definition Hyp (t : ty) : Prop :=
+  wf t = true /\ plain_attrs t = true /\ align_inert t = true /\ fits t = true /\ msl_tight t = true.
+
+Definition Kfull (t : ty) : Prop :=
+  Kfacts t /\ erase_leaf (cxx_layout (msl_def t)) = erase_leaf (spec_layout t).
+
+Lemma dim_cases : forall n, dim_ok n = true -> n = 2 \/ n = 3 \/ n = 4.
+Proof. intros n H. unfold dim_ok in H. lia. Qed.
+
+Lemma K_leaf_vec : forall n s, wf (TVec n s) = true -> Kfull (TVec n s).
+Proof.
+  intros n s Hwf. cbn [wf] in Hwf. andb_split Hwf.
+  destruct (dim_cases _ Hwf) as [ -> | [ -> | -> ] ]; destruct s; try discriminate;
+    (split; [|reflexivity]); unfold Kfacts;
+    repeat split; try (vm_compute; congruence); try (intros; discriminate);
+    try (exists 1; reflexivity); try apply Z.divide_refl;
+    try (match goal with H : is_vec3 _ = Some _ |- _ => vm_compute in H; inversion H; subst end;
+         first [reflexivity | lia | (exists 4; reflexivity)]).
+Qed.
+
+Lemma K_leaf_mat : forall c r s, wf (TMat c r s) = true -> Kfull (TMat c r s).
+Proof.
+  intros c r s Hwf. cbn [wf] in Hwf. andb_split Hwf.
+  destruct (dim_cases _ Hwf) as [ -> | [ -> | -> ] ];
+  destruct (dim_cases _ Hwf1) as [ -> | [ -> | -> ] ]; destruct s; try discriminate;
+    (split; [|reflexivity]); unfold Kfacts;
+    repeat split; try (vm_compute; congruence); try (intros; discriminate);
+    try (exists 1; reflexivity); try apply Z.divide_refl.
+Qed.
+
+Lemma Hyp_members : forall ms m, Hyp (TStruct ms) -> In m ms -> Hyp (mty m).
+Proof.
+  intros ms m [Hwf [Hpl [Hin [Hfit Ht]]]] Hinm. unfold Hyp.
+  destruct (inert_members _ _ Hinm Hwf Hpl (inert_inner _ Hin) Hfit) as [A [B [C D]]].
+  repeat split; auto. cbn [msl_tight] in Ht. andb_split Ht.
+  pose proof (forallb_mem _ _ _ Ht0 Hinm) as E. destruct m; auto.
+Qed.
+
+Lemma K_all : forall t, Hyp t -> Kfull t.
+Proof.
+  induction t using ty_ind'; intros [Hwf [Hpl [Hin [Hfit Ht]]]].
+  - (* scalar *) cbn [wf] in Hwf. destruct s; try discriminate; (split; [|reflexivity]); unfold Kfacts;
+      repeat split; try (vm_compute; congruence); try (intros; discriminate); try apply Z.divide_refl.
+  - apply K_leaf_vec; auto.
+  - apply K_leaf_mat; auto.
+  - (* atomic *) cbn [wf] in Hwf. destruct s; try discriminate; (split; [|reflexivity]); unfold Kfacts;
+      repeat split; try (vm_compute; congruence); try (intros; discriminate); try apply Z.divide_refl.
+  - (* array *)
+    assert (He : Hyp t).
+    { cbn [wf plain_attrs align_inert fits msl_tight] in *. andb_split Hwf. andb_split Hfit. unfold Hyp. auto. }
+    destruct (IHt He) as [[K1 [K2 [K3 [K4 [K5 [K6 K7]]]]]] Kc].
+    cbn [wf plain_attrs align_inert fits msl_tight] in *. andb_split Hwf. andb_split Hfit.
+    destruct (wf_als _ Hwf) as [P S]. pose proof (pow2_pos _ P) as Apos.
+    pose proof (array_stride_multiple_of_align _ Hwf) as Hsd.
+    assert (Hal : align_of (TArray t n) = align_of t).
+    { unfold align_of. cbn [als]. destruct (als t); reflexivity. }
+    assert (Hsz : size_of (TArray t n) = n * stride_of t) by apply array_size_is_count_times_stride.
+    assert (Hdiv : (align_of t | n * stride_of t)) by (apply Z.divide_mul_r; auto).
+    assert (Ecxx : cxx_als (msl_def (TArray t n)) = (fst (cxx_als (msl_def t)), n * stride_of t)).
+    { cbn [msl_def cxx_als]. destruct (cxx_als (msl_def t)) as [a s] eqn:E. cbn [fst snd] in *. subst s.
+      f_equal. apply round_up_id; auto. eapply Z.divide_trans; eauto. }
+    assert (Hst : 0 <= stride_of t) by (unfold stride_of; apply round_up_nonneg; auto).
+    split.
+    + unfold Kfacts. rewrite Ecxx. cbn [fst snd]. rewrite Hal, Hsz.
+      split; auto. split; auto. split.
+      { cbn [msl_type_size]. rewrite nstride_eq; auto; try lia; [|apply nals_eq; auto].
+        rewrite u32_small by nia. lia. }
+      split; [nia|]. split.
+      { symmetry. unfold stride_of at 1. rewrite Hal, Hsz. apply round_up_id; auto. }
+      split; [intros _; split; reflexivity|intros w Hw; discriminate].
+    + cbn [msl_def cxx_layout spec_layout erase_leaf]. rewrite K5, Kc. reflexivity.
+  - (* runtime-sized array *)
+    assert (He : Hyp t).
+    { cbn [wf plain_attrs align_inert fits msl_tight] in *. andb_split Hwf. andb_split Hfit. unfold Hyp. auto. }
+    destruct (IHt He) as [[K1 [K2 [K3 [K4 [K5 [K6 K7]]]]]] Kc].
+    cbn [wf plain_attrs align_inert fits msl_tight] in *. andb_split Hwf. andb_split Hfit.
+    destruct (wf_als _ Hwf) as [P S]. pose proof (pow2_pos _ P) as Apos.
+    pose proof (array_stride_multiple_of_align _ Hwf) as Hsd.
+    assert (Hal : align_of (TRArray t) = align_of t).
+    { unfold align_of. cbn [als]. destruct (als t); reflexivity. }
+    assert (Hsz : size_of (TRArray t) = stride_of t).
+    { unfold size_of, stride_of, align_of, size_of. cbn [als]. destruct (als t); reflexivity. }
+    assert (Hst : 0 <= stride_of t) by (unfold stride_of; apply round_up_nonneg; auto).
+    split.
+    + unfold Kfacts. cbn [msl_def cxx_als]. rewrite Hal, Hsz.
+      split; auto. split; auto. split.
+      { cbn [msl_type_size]. apply nstride_eq; auto; try lia. apply nals_eq; auto. }
+      split; auto. split.
+      { rewrite K5. symmetry. unfold stride_of at 1. rewrite Hal, Hsz. apply round_up_id; auto. }
+      split; [intros _; split; auto|intros w Hw; discriminate].
+    + cbn [msl_def cxx_layout spec_layout erase_leaf]. rewrite K5, Kc. reflexivity.
+  - (* structure *)
+    assert (HypS : Hyp (TStruct ms)) by (unfold Hyp; auto).
+    pose proof (wf_struct_members _ Hwf) as Hwm.
+    pose proof (wf_infos_pos _ Hwf) as Hpos.
+    destruct (root_offsets_span _ Hwf Hpl (inert_inner _ Hin) Hfit) as [Eo Es].
+    destruct (wf_als _ Hwf) as [P S]. pose proof (pow2_pos _ P) as Apos.
+    pose proof (struct_size_multiple_of_align _ Hwf) as Hsd.
+    assert (HK : forall m, In m ms -> Kfull (mty m)).
+    { intros m Hinm. rewrite Forall_forall in H. apply H; auto. eapply Hyp_members; eauto. }
+    assert (HMf : Forall Mfacts ms).
+    { rewrite Forall_forall in *. intros m Hinm. destruct (Hwm m Hinm) as [W [Aa As]].
+      destruct (wf_als _ W) as [Pm Sm]. destruct (HK m Hinm) as [Kf _].
+      unfold Mfacts. destruct m as [oa os t]. cbn [mty mal msz] in *.
+      unfold member_info. cbn [mty mal msz fst snd].
+      split; [|split; [|split; [|exact Kf]]].
+      - destruct oa as [a|]; cbn [attr_or]; auto. cbn [align_attr_ok] in Aa. andb_split Aa. apply pow2b_pow2; auto.
+      - destruct os as [a|]; cbn [attr_or]; [cbn [size_attr_ok] in As; lia|lia].
+      - destruct oa as [a|]; cbn [attr_or]; [|apply Z.divide_refl].
+        cbn [align_attr_ok] in Aa. andb_split Aa. apply pow2_divide; auto. apply pow2b_pow2; auto. lia. }
+    assert (Hspan_lt : size_of (TStruct ms) < 2 ^ 32).
+    { cbn [fits] in Hfit. andb_split Hfit. unfold size_of. rewrite als_struct. cbn [snd]. unfold struct_size.
+      pose proof (round_up_lt (struct_align (infos_of ms)) (end_from 0 (infos_of ms))).
+      pose proof (struct_align_ge1 (infos_of ms)). lia. }
+    assert (Hend : end_from 0 (infos_of ms) <= size_of (TStruct ms)).
+    { unfold size_of. rewrite als_struct. cbn [snd]. unfold struct_size. apply round_up_ge.
+      pose proof (struct_align_ge1 (infos_of ms)). lia. }
+    cbn [msl_tight] in Ht. andb_split Ht. unfold member_offsets in Ht.
+    assert (Hms : ms <> []) by (intro; subst ms; cbn [wf] in Hwf; discriminate).
+    assert (Hl : 0 <= next_off (offsets_from 0 (infos_of ms)) (size_of (TStruct ms))).
+    { destruct ms as [|m r]; [congruence|]. cbn [infos_of map offsets_from next_off].
+      inversion Hpos as [|x y [Pa _] _]; subst x y. destruct (member_info m) as [a s]. cbn [fst] in Pa.
+      apply round_up_nonneg; [apply pow2_pos; auto|lia]. }
+    pose proof (MF_spec ms 0 0 (size_of (TStruct ms)) HMf Ht Hend ltac:(lia) Hl) as HMF.
+    assert (HFA : Forall (fun m => (fst (cxx_als (msl_def (mty m))) | align_of (TStruct ms)) /\
+                   match is_vec3 (mty m) with Some w => (w | align_of (TStruct ms)) | None => True end) ms).
+    { rewrite Forall_forall. intros m Hinm. destruct (HK m Hinm) as [[K1 [K2 [K3 [K4 [K5 [K6 K7]]]]]] _].
+      assert (Hma : (align_of (mty m) | align_of (TStruct ms))).
+      { rewrite Forall_forall in HMf. destruct (HMf m Hinm) as [Pm [_ [Am _]]].
+        eapply Z.divide_trans; [exact Am|]. assert (Eal : align_of (TStruct ms) = struct_align (infos_of ms)) by (unfold align_of; rewrite als_struct; reflexivity). rewrite Eal.
+        apply pow2_divide; auto. apply struct_align_pow2; auto.
+        apply struct_align_ge. unfold infos_of. apply in_map. auto. }
+      split; [eapply Z.divide_trans; eauto|].
+      destruct (is_vec3 (mty m)) as [w|] eqn:Ev; auto.
+      destruct (K7 w eq_refl) as [_ [_ [V3 _]]]. eapply Z.divide_trans; eauto. }
+    destruct (fields_layout ms (offsets_from 0 (infos_of ms)) 0 (size_of (TStruct ms)) (align_of (TStruct ms))
+                HMF Hspan_lt Apos HFA) as [F1 [F2 [F3 F4]]].
+    unfold Kfull, Kfacts. rewrite msl_def_struct, Eo, Es. unfold member_offsets.
+    set (fs := msl_fields 0 ms (offsets_from 0 (infos_of ms)) (size_of (TStruct ms)) (defs_of ms)) in *.
+    assert (Hsa : 0 < struct_align (finfos fs) /\ (struct_align (finfos fs) | align_of (TStruct ms))).
+    { pose proof (struct_align_ge1 (finfos fs)). split; [lia|].
+      destruct (struct_align_in (finfos fs)) as [E1|[i [Hi Ei]]].
+      - rewrite E1. apply Z.divide_1_l.
+      - rewrite <- Ei. rewrite Forall_forall in F4. apply F4; auto. }
+    destruct Hsa as [Hsa1 Hsa2].
+    assert (Esz : round_up (struct_align (finfos fs)) (size_of (TStruct ms)) = size_of (TStruct ms)).
+    { apply round_up_id; auto. eapply Z.divide_trans; eauto. }
+    split.
+    + rewrite cxx_als_struct. cbn [fst snd]. rewrite F2, Esz.
+      split; auto. split; auto. split; [cbn [msl_type_size]; exact Es|]. split; auto.
+      split; [symmetry; apply stride_of_aligned; auto|].
+      split; [intros _; split; reflexivity|intros w Hw; discriminate].
+    + cbn [cxx_layout spec_layout erase_leaf]. rewrite cxx_als_struct. cbn [snd]. rewrite F2, Esz.
+      unfold cxx_field_offsets. fold (finfos fs). rewrite F1. f_equal.
+      assert (Emap : map (fun f : bool * ctype => let (_, c') := f in cxx_layout c') fs =
+                     map (fun f => cxx_layout (snd f)) fs) by (apply map_ext; intros [b c]; reflexivity).
+      rewrite Emap, F3. rewrite map_map. apply map_ext_in. intros m Hinm.
+      destruct (HK m Hinm) as [_ Kc]. destruct m; cbn [mty] in *. exact Kc.
+Qed.
+
+(* every structure, array element and member is placed by the C++ compiler where the
+   WGSL layout (= the IR layout under these hypotheses) puts it *)
+Theorem msl_offsets_eq_spec_lemma : forall t,
+  wf t = true -> plain_attrs t = true -> align_inert t = true -> fits t = true -> msl_tight t = true ->
+  erase_leaf (cxx_layout (msl_def t)) = erase_leaf (spec_layout t) /\
+  snd (cxx_als (msl_def t)) = stride_of t.
+Proof.
+  intros t A B C D E. destruct (K_all t) as [[_ [_ [_ [_ [K5 _]]]]] Kc]; [unfold Hyp; auto|]. auto.
 Qed.
